@@ -48,6 +48,10 @@ def run(rep, tier):
           and st[1]["p"][-1].get("n") == "1" and st[2]["k"] == "use" and (core.op_const(st[2]["o"]) or {}).get("int") == "0"]
     ix.retire_under_equality(rep, "R10.2", g, "mark_bucket_snapshot_saved", rb, {"3"}, "clearing a bucket's dirty flag")
 
+    nsz = ix.size_change_marks_dirty(rep, "R10.2", prog, "btree")
+    if nsz < 8:
+        rep.fault("R10.2: only %d bucket size writes found in the B-tree mutators" % nsz)
+
     rep.rule("R10.3", "ordered key set changed only under its write lock with the posting map re-checked inside; empty postings removed atomically (remove_if)", floor=6)
     for name in ("insert", "insert_array"):
         f = prog.fn(BI + "::" + name)
